@@ -118,7 +118,7 @@ def run(ctx) -> None:
     if not init_nodes or not starter_nodes:
         rep.violate("C05.R1", SC, SC.node, "start_component does not build the tree and then start it")
         return
-    rep.check("C05.R1", all(sccfg.dominates(init_nodes[0].id, sn_.id) for sn_ in starter_nodes), SC, init_nodes[0].ast, "the whole tree is instantiated before the starter coroutine is awaited", "the starter can run before the tree has been instantiated")
+    rep.check("C05.R1", not ({sn_.id for sn_ in starter_nodes} & sccfg.reach([sccfg.entry], edge_ok=lambda s_, d_, lab: not (s_.id in {i_.id for i_ in init_nodes} and lab not in ("e", "h")))), SC, init_nodes[0].ast, "the whole tree is instantiated before the starter coroutine is awaited", "the starter can run before the tree has been instantiated")
     rep.check("C05.R1", not init.is_async, init, init.node, "instantiation is synchronous (no interleaving with prepare/start of other components)", "the init function is a coroutine: instantiation interleaves with startup")
     phase_in_init = [c for c in walk_own(init.node) if isinstance(c, ast.Call) and isinstance(c.func, ast.Attribute) and c.func.attr in ("prepare", "start")]
     rep.check("C05.R1", not phase_in_init, init, phase_in_init[0] if phase_in_init else init.node, "instantiation calls no prepare()/start()", "prepare()/start() is called while the tree is still being instantiated")
